@@ -8,7 +8,7 @@
   lazy_filters.py, `LinearFilter.__call__`:
       if any(key < 0 …): raise ValueError("Non-causal filter")
       if isinstance(self.denpoly[0], Stream):            # variable output gain
-        den = self.denpoly ; inv_gain = 1 / den[0]
+        den = Poly(self.denpoly) ; inv_gain = 1 / den[0]          # a NEW dictionary (D16 repaired)
         den[0] = 0 ; den *= inv_gain.copy() ; den[0] = 1
         return ZFilter(self.numpoly * inv_gain, den)(seq, memory=memory, zero=zero)
       if self.denpoly[0] == 0: raise ZeroDivisionError
@@ -40,8 +40,10 @@
   * a coefficient is `Coef α = const c | strm s` with `s : List α` the items the Stream will
     deliver (an endless / periodic Stream is represented by a long enough prefix);
   * a generator whose body meets `StopIteration` (a coefficient stream ended) ENDS — the
-    behaviour the code was written for (Python < 3.7).  On CPython ≥ 3.7 PEP 479 turns this into
-    `RuntimeError` (defect D13); the outputs produced before are the same.
+    generated loop body is wrapped in `try: … except StopIteration: return` (D13 repaired).
+  * a coefficient iterator that RAISES anything else kills the generator with that exception: in
+    the model such a source is the list of the items it delivers before, the tie checks that the
+    exception reaches the caller after exactly those outputs and that the next `next()` stops.
   * the loop state keeps one iterator (remaining items) per coefficient argument `b{k}` / `a{k}`,
     so the number of `next` calls per output is part of the model (`reads_once`).
 -/
@@ -283,21 +285,22 @@ def filterCallTV (numPairs denPairs : List (Int × Coef α)) (mem : Mem α) (zer
 an iterator owned by that object.  A history "call, consume the output to its end, call again" is
 modelled by the state the first call leaves:
 
-* constant gain: nothing is assigned; `iter(self.numpoly[idx])` hands the Stream's own iterator to
-  the generator (`Stream.__iter__` returns `self._data`), so each coefficient Stream is left where
-  the generated loop left it (`Its`);
-* Stream gain: `den = self.denpoly` is an ALIAS, so `den[0] = 0` — `Poly.__setitem__` with the zero
-  value deletes the entry — is executed on the filter object itself.  The following `den *= …`
-  rebinds the local name to a new `Poly` (`Poly` defines no `__imul__`), so `den[0] = 1` and the
-  rewritten coefficients do not leak back.  The causality test raises before any of this. -/
+* nothing is assigned to the object (constant gain: nothing at all; Stream gain: the rewriting
+  works on `den = Poly(self.denpoly)`, a NEW dictionary, and on new `Poly`s);
+* constant gain: `iter(self.numpoly[idx])` hands the Stream's own iterator to the generator
+  (`Stream.__iter__` returns `self._data`), so each coefficient Stream is left where the generated
+  loop left it (`Its`);
+* Stream gain: the loop's arguments are the product Streams `coefficient * (1/a0 copy)`; one
+  `next` on such an argument is one `next` on the object's coefficient Stream and one on a tee copy
+  of the gain, so after `L` outputs every Stream the object holds has delivered `L` items.  (When a
+  coefficient stream ended the output, streams read before it in that last, failed, evaluation are
+  one item further; this is not observable by a later call: the ended stream ends every later
+  output at once.) -/
 
-/-- `self.denpoly` after `__call__` returned or raised -/
-def denAfterCall (num den : Terms (Coef α)) : Terms (Coef α) :=
-  if !checkCausal num den then den
-  else
-    match coefAt den 0 with
-    | .strm _ => ALV.C07.setItem den 0 0
-    | .const _ => den
+/-- what is left of a coefficient after `n` outputs: a Stream without its first `n` items -/
+def Coef.dropC (n : Nat) : Coef α → Coef α
+  | .const c => .const c
+  | .strm s => .strm (s.drop n)
 
 /-- every Stream coefficient replaced by what the loop left of it; `its` = remaining items indexed
 by `delay - off` (`b{k}` ↦ `its.b[k]`, `a{k}` ↦ `its.a[k-1]`) -/
@@ -307,17 +310,24 @@ def advance (off : Nat) (t : Terms (Coef α)) (its : List (List α)) : Terms (Co
     | .strm _ => (kv.1, Coef.strm (its.getD (kv.1.toNat - off) []))
     | .const c => (kv.1, Coef.const c)
 
+/-- the filter object after a call that returned `r` -/
+def objAfter (num den : Terms (Coef α)) (r : Except Err (List α × Its α)) :
+    Terms (Coef α) × Terms (Coef α) :=
+  match r with
+  | .error _ => (num, den)                       -- a refused call changes nothing
+  | .ok (ys, its) =>
+    match coefAt den 0 with
+    | .const _ => (advance 0 num its.b, advance 1 den its.a)
+    | .strm _ => (num.map fun kv => (kv.1, kv.2.dropC ys.length),
+                  den.map fun kv => (kv.1, kv.2.dropC ys.length))
+
 /-- two calls of the SAME filter object `ZFilter`-normalised to `(num, den)`, the first output
-consumed to its end before the second call.  (After a Stream-gain call the positions of the
-coefficient Streams do not matter: the second call raises before it reads anything.) -/
+consumed to its end before the second call -/
 def callTwice (num den : Terms (Coef α)) (mem1 : Mem α) (zero1 : α) (xs1 : List α)
     (mem2 : Mem α) (zero2 : α) (xs2 : List α) :
     Except Err (List α × Its α) × Except Err (List α × Its α) :=
   let r1 := callTV num den mem1 zero1 xs1
-  let obj2 : Terms (Coef α) × Terms (Coef α) :=
-    match coefAt den 0, r1 with
-    | .const _, .ok (_, its) => (advance 0 num its.b, advance 1 den its.a)
-    | _, _ => (num, denAfterCall num den)
+  let obj2 := objAfter num den r1
   (r1, callTV obj2.1 obj2.2 mem2 zero2 xs2)
 
 end call
